@@ -22,6 +22,7 @@ import (
 //	                CAS and the lock (pause point set.mark.flagged): "c" when parked, "f" when the CAS failed;
 //	                Y<id> lets the parked mark of <id> take the lock and finish: its result
 //	   -> after every op: <t|f for marks>H[addr#id,…]  (Healthy()), at the end X[ids whose removal latch is closed]
+//	      and, if a list returned by an earlier Healthy() has changed behind its reader's back, !published-lists-changed=<n>
 //	c15.hc <rise> <fall> <outcomes>   one member host, scripted check outcomes (1 = ok, 0 = failed)
 //	   -> per outcome h (healthy and listed) / u (unhealthy and not listed) / ! (flag and listing disagree)
 type c15 struct{}
@@ -38,6 +39,38 @@ func (c15) Rule() string {
 type objTable struct {
 	objs map[int]*host.Host
 	ids  map[*host.Host]int
+	// every list Healthy() has handed out, with what it said then: a reader may still be holding it
+	held []heldList
+}
+
+type heldList struct {
+	list []*host.Host
+	was  string
+}
+
+func (t *objTable) render(hs []*host.Host) string {
+	var p []string
+	for _, h := range hs {
+		id, ok := t.ids[h]
+		ids := strconv.Itoa(id)
+		if !ok {
+			ids = "?"
+		}
+		a, _ := strconv.Atoi(strings.TrimPrefix(h.Addr, "a"))
+		p = append(p, fmt.Sprintf("%d#%s", a, ids))
+	}
+	return "H[" + strings.Join(p, ",") + "]"
+}
+
+// changedLists counts the lists handed out earlier that no longer say what they said.
+func (t *objTable) changedLists() int {
+	n := 0
+	for _, h := range t.held {
+		if t.render(h.list) != h.was {
+			n++
+		}
+	}
+	return n
 }
 
 func (t *objTable) get(id int, addr int, main bool) *host.Host {
@@ -76,17 +109,10 @@ func (t *objTable) parse(s string) ([]*host.Host, bool) {
 }
 
 func (t *objTable) healthy(s *host.Set) string {
-	var p []string
-	for _, h := range s.Healthy() {
-		id, ok := t.ids[h]
-		ids := strconv.Itoa(id)
-		if !ok {
-			ids = "?"
-		}
-		a, _ := strconv.Atoi(strings.TrimPrefix(h.Addr, "a"))
-		p = append(p, fmt.Sprintf("%d#%s", a, ids))
-	}
-	return "H[" + strings.Join(p, ",") + "]"
+	hs := s.Healthy()
+	out := t.render(hs)
+	t.held = append(t.held, heldList{hs, out})
+	return out
 }
 
 func (c15) Exec(op string) string {
@@ -229,7 +255,11 @@ func (c15) Exec(op string) string {
 			for _, id := range rem {
 				rs = append(rs, strconv.Itoa(id))
 			}
-			return strings.Join(outs, "|") + " X[" + strings.Join(rs, ",") + "]"
+			res := strings.Join(outs, "|") + " X[" + strings.Join(rs, ",") + "]"
+			if n := t.changedLists(); n > 0 {
+				res += fmt.Sprintf(" !published-lists-changed=%d", n)
+			}
+			return res
 		})
 	case "c15.hc":
 		if len(f) != 4 {
